@@ -9,7 +9,8 @@ SOLVERS = {
     'cvc5': ['cvc5', '--lang=smt2', '--produce-models', '--bitblast=eager'],
     'cvc5lazy': ['cvc5', '--lang=smt2', '--produce-models'],
 }
-DEFAULT_PORTFOLIO = ('z3smt', 'z3new', 'cvc5')
+# two z3 configurations by default; XSYM_PORTFOLIO=z3smt,z3new,cvc5 adds cvc5 (eager bit-blasting) as a third opinion
+DEFAULT_PORTFOLIO = tuple((os.environ.get('XSYM_PORTFOLIO') or 'z3smt,z3new').split(','))
 
 
 class Result:
